@@ -114,6 +114,12 @@ def main():
                     ts2 = [ts[0]]
                     for _ in range(N - 1):
                         ts2.append(ts2[-1] + rng.choice(classes))
+                if unit is not None and rng.random() < 0.5:
+                    # another tolerance, set between the two evaluations: the counter of the second data set is taken with it
+                    tol2 = rng.choice([t_ for t_ in TOLS if t_ and (P * t_[0]) % t_[1] == 0])
+                    T2 = P * tol2[0] // tol2[1]
+                    if dyadic or all(abs(g_ - (P - T2)) * 50 > P and abs(g_ - (P + T2)) * 50 > P for g_ in classes):
+                        evs.append({"o": 1, "a": "config", "set_period": [pnum, punit, tol2[0] / float(tol2[1])], "period": P, "tol": T2})
                 evs.append(ev_evaluate(ts2, gen_trace(rng, ["x"], N, S)))
         c = case([o], evs)
         if o.get("skip_ast"):
